@@ -5,13 +5,11 @@ import IoraModel.Gen.CloseSites
 
 Every lifecycle site the translator finds in tcp_engine.hpp / udp_engine.hpp (`Gen.CloseSites.tcpSites/udpSites`: enclosing
 function, kind, hash of the guard) is listed here, in source order, next to the piece of the MODEL that plays its part: a
-`closeNow(`/`closeCb(` call site is the transition that emits `Out.close _ site`; the other kinds are parts of a primitive of
-`Model/LifecycleCore.lean`.  `closeSites_covered` (Props/C02, by `decide`) states that the generated list equals this table:
-adding, removing, moving or re-guarding a site in the source breaks the build until the model has been reviewed.
-
-Two entries are optional: the repairs F18 (TLS requested without a client context is refused at the top of doConnect) and F20
-(SSL_set1_host failure) each add one close site to doConnect; `variant` recognises them in the generated list and the model
-takes the corresponding `Cfg` flags from it, so the table follows the tree in either state.
+`closeNow(`/`closeCb(` call site is the transition that emits `Out.close _ site`; the other kinds (id allocation, gauge, closed
+flag, accept/connect/data callbacks, `connectPending = false`) are parts of a primitive of `Model/LifecycleCore.lean`.
+`closeSites_covered` (Props/C02, by `decide`) states that the generated list equals this table: adding, removing, moving or
+re-guarding a site in the source - including dropping the `return` of an earlier failure block - breaks the build until the model
+has been reviewed.  (The table is for the tree with the F17/F18/F19/F20/F30/F35 repairs.)
 -/
 namespace Iora.Lifecycle.Sites
 open Iora.Lifecycle
@@ -24,18 +22,7 @@ inductive Role
   | prim (what : String)  -- part of a primitive operation of the model
   deriving DecidableEq, Repr
 
-def f18Site : GSite := ⟨"doConnect", "closeCb", "1fce4c5b"⟩
-def f20Site : GSite := ⟨"doConnect", "closeCb", "2a346285"⟩
-
-/-- which optional repairs the tree contains -/
-structure Variant where
-  f18 : Bool
-  f20 : Bool
-  deriving DecidableEq, Repr
-
-def variantOf (g : List GSite) : Variant := ⟨g.contains f18Site, g.contains f20Site⟩
-
-def tcpTable (v : Variant) : List (GSite × Role) :=
+def tcpTable : List (GSite × Role) :=
   [
     (⟨"connect", "idAlloc", "e3b0c442"⟩, .prim "apiConnect: id allocation"),
     (⟨"shutdownDrain", "closedTrue", "1ac95619"⟩, .prim "drainClose: closed flag"),
@@ -45,46 +32,47 @@ def tcpTable (v : Variant) : List (GSite × Role) :=
     (⟨"process", "closeNow", "fad6cd2a"⟩, .closeProc),
     (⟨"onListener", "idAlloc", "eec7f35e"⟩, .prim "acceptFresh: id allocation"),
     (⟨"onListener", "gaugeInc", "6144a05b"⟩, .prim "acceptFresh: gauge"),
-    (⟨"onListener", "acceptCb", "c86245ed"⟩, .prim "acceptFresh: accept callback")]
-  ++ (if v.f18 then [(f18Site, .close .tlsRefused)] else [])
-  ++ [
-    (⟨"doConnect", "closeCb", "85f40a20"⟩, .close .resolveTimeout),
-    (⟨"doConnect", "closeCb", "ac74439f"⟩, .close .resolveFail),
-    (⟨"doConnect", "closeCb", "bf0ae740"⟩, .close .refused),
-    (⟨"doConnect", "closeCb", "fdff434e"⟩, .close .noSocket),
-    (⟨"doConnect", "closeCb", "b9f38041"⟩, .close .sslNewFail)]
-  ++ (if v.f20 then [(f20Site, .close .sniFail)] else [])
-  ++ [
-    (⟨"doConnect", "gaugeInc", "e3b0c442"⟩, .prim "insertCur: gauge"),
-    (⟨"doConnect", "closeNow", "6af1d857"⟩, .close .immGsoFail),
-    (⟨"doConnect", "connectCb", "516c9d07"⟩, .prim "announceConnect"),
-    (⟨"doConnect", "closeNow", "1399e51a"⟩, .close .immPeerFail),
-    (⟨"doConnect", "closeNow", "76ea59c3"⟩, .close .immSoErr),
+    (⟨"onListener", "acceptCb", "c86245ed"⟩, .prim "acceptFresh: accept callback"),
+    (⟨"doConnect", "closeCb", "1fce4c5b"⟩, .close .tlsRefused),
+    (⟨"doConnect", "closeCb", "7b49ac7a"⟩, .close .resolveTimeout),
+    (⟨"doConnect", "closeCb", "5840638a"⟩, .close .resolveFail),
+    (⟨"doConnect", "closeCb", "3f03fe11"⟩, .close .refused),
+    (⟨"doConnect", "closeCb", "68a7f34b"⟩, .close .noSocket),
+    (⟨"doConnect", "closeCb", "9ed6c2e1"⟩, .close .sslNewFail),
+    (⟨"doConnect", "closeCb", "3bc97122"⟩, .close .sniFail),
+    (⟨"doConnect", "gaugeInc", "cedf8ff6"⟩, .prim "insertCur: gauge"),
+    (⟨"doConnect", "closeNow", "ce12445f"⟩, .close .immGsoFail),
+    (⟨"doConnect", "connectCb", "d89883d6"⟩, .prim "announceConnect"),
+    (⟨"doConnect", "pendingClear", "24a91420"⟩, .prim "announceConnect: connectPending cleared"),
+    (⟨"doConnect", "closeNow", "cdc464b5"⟩, .close .immPeerFail),
+    (⟨"doConnect", "closeNow", "d2f417a6"⟩, .close .immSoErr),
     (⟨"onSession", "closeNow", "7374e549"⟩, .close .evSoErrEarly),
-    (⟨"onSession", "closeNow", "c8e06dd9"⟩, .close .evGsoFail),
-    (⟨"onSession", "connectCb", "6e03885a"⟩, .prim "announceConnect"),
-    (⟨"onSession", "closeNow", "274123c3"⟩, .close .evPeerFail),
-    (⟨"onSession", "closeNow", "4f589569"⟩, .close .evSoErr),
-    (⟨"onSession", "closeNow", "3a5776c7"⟩, .close .hup),
+    (⟨"onSession", "closeNow", "c198da00"⟩, .close .evGsoFail),
+    (⟨"onSession", "connectCb", "d39da0c1"⟩, .prim "announceConnect"),
+    (⟨"onSession", "pendingClear", "77db0560"⟩, .prim "announceConnect: connectPending cleared"),
+    (⟨"onSession", "closeNow", "18950fb9"⟩, .close .evPeerFail),
+    (⟨"onSession", "closeNow", "d8d607b0"⟩, .close .evSoErr),
+    (⟨"onSession", "closeNow", "baabe4bb"⟩, .close .hup),
     (⟨"driveHandshake", "closeNow", "3f961aa4"⟩, .close .hsTimeoutInline),
-    (⟨"driveHandshake", "closeNow", "d221658d"⟩, .close .hsHookBefore),
-    (⟨"driveHandshake", "closeNow", "f4e7d1c7"⟩, .close .hsHookAfterOk),
-    (⟨"driveHandshake", "connectCb", "6a9f3dd8"⟩, .prim "announceConnect"),
-    (⟨"driveHandshake", "closeNow", "263698ff"⟩, .close .hsHookAfterErr),
-    (⟨"driveHandshake", "closeNow", "b6977e8c"⟩, .close .hsFatal),
+    (⟨"driveHandshake", "closeNow", "698d02ed"⟩, .close .hsHookBefore),
+    (⟨"driveHandshake", "closeNow", "16dcc23b"⟩, .close .hsHookAfterOk),
+    (⟨"driveHandshake", "connectCb", "9b3c2788"⟩, .prim "announceConnect"),
+    (⟨"driveHandshake", "pendingClear", "12e40e5f"⟩, .prim "announceConnect: connectPending cleared"),
+    (⟨"driveHandshake", "closeNow", "54417d5e"⟩, .close .hsHookAfterErr),
+    (⟨"driveHandshake", "closeNow", "42e56eee"⟩, .close .hsFatal),
     (⟨"readAvail", "closeNow", "1b42488f"⟩, .close .rdHook),
-    (⟨"readAvail", "closeNow", "688bbcb3"⟩, .close .tlsZeroReturn),
-    (⟨"readAvail", "closeNow", "03926d68"⟩, .close .tlsReadErr),
-    (⟨"readAvail", "closeNow", "97788593"⟩, .close .recvErr),
-    (⟨"readAvail", "closeNow", "7df8a78d"⟩, .close .fin),
-    (⟨"readAvail", "dataCb", "2eb901df"⟩, .prim "dataCb"),
+    (⟨"readAvail", "closeNow", "53f5ad9c"⟩, .close .tlsZeroReturn),
+    (⟨"readAvail", "closeNow", "bf908e6f"⟩, .close .tlsReadErr),
+    (⟨"readAvail", "closeNow", "ef44175b"⟩, .close .recvErr),
+    (⟨"readAvail", "closeNow", "a1438f81"⟩, .close .fin),
+    (⟨"readAvail", "dataCb", "99789937"⟩, .prim "dataCb"),
     (⟨"writePending", "closeNow", "d5b61f00"⟩, .close .wrHook),
-    (⟨"writePending", "closeNow", "36281991"⟩, .close .tlsWriteErr),
-    (⟨"writePending", "closeNow", "3a584380"⟩, .close .sendErr),
+    (⟨"writePending", "closeNow", "cea421a8"⟩, .close .tlsWriteErr),
+    (⟨"writePending", "closeNow", "2ada9b39"⟩, .close .sendErr),
     (⟨"doSend", "closeNow", "c23bb1b5"⟩, .close .dsHook),
-    (⟨"doSend", "closeNow", "a70aa4c5"⟩, .close .dsTlsErr),
-    (⟨"doSend", "closeNow", "23bb904f"⟩, .close .dsSendErr),
-    (⟨"doSend", "closeNow", "38623c8c"⟩, .close .backpressure),
+    (⟨"doSend", "closeNow", "7353c97d"⟩, .close .dsTlsErr),
+    (⟨"doSend", "closeNow", "0c17404f"⟩, .close .dsSendErr),
+    (⟨"doSend", "closeNow", "577dd086"⟩, .close .backpressure),
     (⟨"closeNow", "closedTrue", "73045f30"⟩, .prim "closeNow: closed flag"),
     (⟨"closeNow", "gaugeDec", "73045f30"⟩, .prim "closeNow: gauge"),
     (⟨"closeNow", "closeCb", "9b757aab"⟩, .prim "closeNow: close callback"),
@@ -92,6 +80,7 @@ def tcpTable (v : Variant) : List (GSite × Role) :=
 
 def udpTable : List (GSite × Role) :=
   [
+    (⟨"<ctor>", "pendingClear", "e3b0c442"⟩, .prim "constructor (timer lambda): connectPending cleared"),
     (⟨"connect", "idAlloc", "66628004"⟩, .prim "apiConnect: id allocation"),
     (⟨"connectViaListener", "idAlloc", "e3b0c442"⟩, .prim "apiVia: id allocation"),
     (⟨"shutdownDrain", "closedTrue", "1ac95619"⟩, .prim "drainClose: closed flag"),
@@ -104,25 +93,27 @@ def udpTable : List (GSite × Role) :=
     (⟨"readFromListener", "acceptCb", "eca7863a"⟩, .prim "acceptFresh: accept callback"),
     (⟨"readFromListener", "dataCb", "2eb901df"⟩, .prim "dataCb"),
     (⟨"connectDo", "closeCb", "ac74439f"⟩, .close .uResolveFail),
-    (⟨"connectDo", "closeCb", "6a1f9818"⟩, .close .uNoSocket),
-    (⟨"connectDo", "gaugeInc", "e3b0c442"⟩, .prim "insertCur: gauge"),
-    (⟨"connectDo", "connectCb", "64573140"⟩, .prim "announceConnect"),
+    (⟨"connectDo", "closeCb", "4d0cff4a"⟩, .close .uNoSocket),
+    (⟨"connectDo", "pendingClear", "46c86777"⟩, .prim "connectNow: created with connectPending = false"),
+    (⟨"connectDo", "gaugeInc", "46c86777"⟩, .prim "connectNow: gauge"),
+    (⟨"connectDo", "connectCb", "a3069416"⟩, .prim "connectNow: connect callback"),
     (⟨"viaDo", "closeCb", "6cbdedb4"⟩, .close .vNoListener),
-    (⟨"viaDo", "closeCb", "81cb36c2"⟩, .close .vAfUnknown),
-    (⟨"viaDo", "closeCb", "ac74439f"⟩, .close .vResolveFail),
-    (⟨"viaDo", "closeCb", "69ae4981"⟩, .close .vAfMismatch),
-    (⟨"viaDo", "closeCb", "768c9afe"⟩, .close .vCap),
-    (⟨"viaDo", "gaugeInc", "e3b0c442"⟩, .prim "insertCur: gauge"),
-    (⟨"viaDo", "connectCb", "64573140"⟩, .prim "announceConnect"),
+    (⟨"viaDo", "closeCb", "c4d16601"⟩, .close .vAfUnknown),
+    (⟨"viaDo", "closeCb", "c22a8bfa"⟩, .close .vResolveFail),
+    (⟨"viaDo", "closeCb", "f2859527"⟩, .close .vAfMismatch),
+    (⟨"viaDo", "closeCb", "f1f51db8"⟩, .close .vCap),
+    (⟨"viaDo", "pendingClear", "f5252279"⟩, .prim "connectNow: created with connectPending = false"),
+    (⟨"viaDo", "gaugeInc", "f5252279"⟩, .prim "connectNow: gauge"),
+    (⟨"viaDo", "connectCb", "b0982007"⟩, .prim "connectNow: connect callback"),
     (⟨"onClient", "dataCb", "5f9fce6c"⟩, .prim "dataCb"),
-    (⟨"onClient", "dataCb", "25ebf0c8"⟩, .prim "dataCb (empty datagram)"),
-    (⟨"onClient", "closeNow", "4de9d284"⟩, .close .ucRecvErr),
+    (⟨"onClient", "dataCb", "4342727a"⟩, .prim "dataCb (empty datagram)"),
+    (⟨"onClient", "closeNow", "d8fb10d8"⟩, .close .ucRecvErr),
     (⟨"writeClient", "closeNow", "9f3bcdb7"⟩, .close .ucWriteErr),
     (⟨"sendDo", "closeNow", "d9c13387"⟩, .close .usBackpressure),
-    (⟨"sendDo", "closeNow", "8e2ed6e9"⟩, .close .usSendErr),
-    (⟨"sendDo", "closeNow", "97373233"⟩, .close .usListenerGone),
-    (⟨"sendDo", "closeNow", "0ea05bfd"⟩, .close .usLstBackpressure),
-    (⟨"sendDo", "closeNow", "5d982ed3"⟩, .close .usPeerSendErr),
+    (⟨"sendDo", "closeNow", "0b3f135f"⟩, .close .usSendErr),
+    (⟨"sendDo", "closeNow", "a05e848b"⟩, .close .usListenerGone),
+    (⟨"sendDo", "closeNow", "c4f065e9"⟩, .close .usLstBackpressure),
+    (⟨"sendDo", "closeNow", "027d2fb2"⟩, .close .usPeerSendErr),
     (⟨"closeNow", "closedTrue", "73045f30"⟩, .prim "closeNow: closed flag"),
     (⟨"closeNow", "gaugeDec", "73045f30"⟩, .prim "closeNow: gauge"),
     (⟨"closeNow", "closeCb", "9b757aab"⟩, .prim "closeNow: close callback"),
@@ -143,10 +134,15 @@ def udpConnect : List String := ["retErr", "idAlloc", "enqueue", "retErr", "retO
 def udpConnectVia : List String := ["idAlloc", "enqueue", "retErr", "retOk"]
 def tcpEnqueue : List String := ["lock", "closedCheck", "retFalse", "push", "retTrue", "retFalse"]
 def udpEnqueue : List String := ["lock", "closedCheck", "retFalse", "push", "retTrue"]
-/-- order of Transport::Impl's close handler: connectSync suppression, global callback, observers (copy, erase, iterate), tombstone, user data -/
-def fanout : List String := ["pendingFind", "pendingErase", "suppressReturn", "copyGlobal", "callGlobal", "observersFind", "observersCopy", "obsIndexErase", "observersErase", "forObservers", "callObserver", "tombstone", "dataFind", "dataErase", "cleanupGuard", "callCleanup"]
-def observe : List String := ["idAlloc", "append", "index"]
-def unobserve : List String := ["indexFind", "retFalse", "indexErase", "removeIf", "eraseEmpty", "retTrue"]
-def setSessionData : List String := ["assign"]
+/-- a connecting socket is registered for EPOLLIN|EPOLLOUT, and updateInterest keeps EPOLLOUT while `connectPending` (outside the TLS
+handshake): the completion of the connect is always reported - what the environment contract of T3 rests on -/
+def tcpConnectEpollMask : List String := ["EPOLLIN", "EPOLLOUT"]
+def tcpUpdateInterest : List String := ["base", "ifHandshake", "orTlsWantWrite", "else", "orConnectPending", "ifNeedWrite", "outBit", "modEpoll"]
+/-- order (and locks) of Transport::Impl's close handler: connectSync suppression, global callback, observers (copy, erase, iterate),
+tombstone, user data -/
+def fanout : List String := ["lockSync", "pendingFind", "pendingErase", "suppressReturn", "lockCallback", "copyGlobal", "callGlobal", "lockObserver", "observersFind", "observersCopy", "obsIndexErase", "observersErase", "forObservers", "callObserver", "lockSync", "tombstone", "lockUserData", "dataFind", "dataErase", "cleanupGuard", "callCleanup"]
+def observe : List String := ["idAlloc", "lockObserver", "append", "index"]
+def unobserve : List String := ["lockObserver", "indexFind", "retFalse", "indexErase", "removeIf", "eraseEmpty", "retTrue"]
+def setSessionData : List String := ["lockUserData", "assign"]
 
 end Iora.Lifecycle.Sites
